@@ -184,7 +184,10 @@ func runC06(e *Env) error {
 				}
 				return p
 			}
-			eng.AddFilter("bad", func(v interface{}, a ...interface{}) (interface{}, error) { spies = append(spies, "bad"); return v, nil })
+			eng.AddFilter("bad", func(v interface{}, a ...interface{}) (interface{}, error) {
+				spies = append(spies, "bad")
+				return v, nil
+			})
 			eng.AddFunction("badfn", func(a ...interface{}) (interface{}, error) { spies = append(spies, "badfn"); return "r", nil })
 			eng.AddFunction("okfn", func(a ...interface{}) (interface{}, error) { return "ok", nil })
 			eng.RegisterString("main", "{% include 'box' sandboxed %}")
